@@ -133,10 +133,8 @@ def pushScalar (ext : Ext) (b : B) (x : SVal) : R B :=
         pure (.fixedSizeBinary p n (len + 1) v' (buf ++ bs) cur)
     | _ => notSupported s!"serialize_{x.kind}"
   | .dictionary p idx vals index =>
-    let key : Option String := match x with
-      | .str s => some s
-      | .unitVariant _ _ variant => some variant
-      | _ => none
+    -- `serialize_str`, `serialize_unit_variant` and the scalars forwarded through `to_string` (as Utf8Builder does)
+    let key : Option String := scalarToString ext x
     match key with
     | some s =>
       match indexOfName index s with
